@@ -183,6 +183,11 @@ def strip_lean_comments(text):
     return "".join(out)
 
 
+# the only file that may use native_decide (C05's generated per-pair theorems; declared in its trusted base).
+# The axiom audit of every other property's theorems would still expose any dependency on it.
+NATIVE_DECIDE_FILES = ("Generated/C05",)
+
+
 def scan_forbidden(allow_native_in=()):
     hits = []
     for d in ("Ink", "Proofs", "Spec", "Generated", "Driver"):
@@ -190,7 +195,7 @@ def scan_forbidden(allow_native_in=()):
             txt = strip_lean_comments(open(f).read())
             for m in FORBIDDEN.finditer(txt):
                 tok = m.group(0).strip()
-                if tok == "native_decide" and any(a in f for a in allow_native_in):
+                if tok == "native_decide" and any(a in f for a in tuple(allow_native_in) + NATIVE_DECIDE_FILES):
                     continue
                 if tok == "unsafe" and d == "Driver":
                     continue
